@@ -23,10 +23,10 @@ def generate(tier, seed):
     for name in sources.PROTEINS:
         cases.append({"kind": "file", "file": name, "opt": "-d", "seed": "%d:%s:d" % (seed, name), "cost": 100})
         cases.append({"kind": "file", "file": name, "variant": 1, "seed": "%d:%s:v" % (seed, name), "cost": 120})
-    n = 400 if tier == "quick" else 4000
+    n = 400 if tier == "quick" else 20000
     for k in range(n):
         cases.append({"kind": "cutout", "seed": "%d:cut:%d" % (seed, k), "cost": 12})
-    n = 100 if tier == "quick" else 800
+    n = 100 if tier == "quick" else 4000
     for k in range(n):
         cases.append({"kind": "samelabel", "seed": "%d:sl:%d" % (seed, k), "cost": 14})
     return cases
